@@ -50,11 +50,20 @@ func runC13(c *fw.Ctx, idx int) fw.Result {
 	case "snps":
 		W := r.Range(1, 150)
 		nq := r.Range(1, 64)
-		ref := gen.RandSeq(r, W, gen.SeqProfile{PAmbig: 0.03, PGap: 0.01})
 		vp := gen.DefaultVarProfile()
 		vp.Recur = true
 		vp.MaxInsSites = 0
 		vp.PSub = 0.04
+		if idx%250 == 17 {
+			// a wide, diverse alignment: thousands of distinct SNPs, an aggregate table beyond
+			// any write buffer (64 KiB and more)
+			W = r.Range(1500, 2500)
+			nq = r.Range(3, 5)
+			vp.PSub = 0.9
+			vp.Recur = false
+			res.Count("snps_cases_with_large_aggregate_table", 1)
+		}
+		ref := gen.RandSeq(r, W, gen.SeqProfile{PAmbig: 0.03, PGap: 0.01})
 		msa := gen.MakeVariantMSA(r, strings.ToUpper(ref), nq, vp)
 		refTxt := gen.RefFasta("reference", ref, gen.PickLineWidth(r, W))
 		if r.Chance(0.15) {
@@ -64,7 +73,8 @@ func runC13(c *fw.Ctx, idx int) fw.Result {
 			msa.Rows[k].ID, msa.Rows[k].Desc = "reference", "reference"
 			res.Count("snps_cases_with_query_named_like_reference", 1)
 		}
-		aln := gen.RenderFasta(msa.Rows, gen.PickLineWidth(r, W))
+		aln := noFinalNL(r, gen.RenderFasta(msa.Rows, gen.PickLineWidth(r, W)))
+		refTxt = noFinalNL(r, refTxt)
 		hard := r.Chance(0.3)
 		var err error
 		perSeq, err = run.SNPs(refTxt, aln, hard, false, 0)
